@@ -8,6 +8,7 @@ import (
 	"fmt"
 	"io"
 	"math/rand"
+	"strings"
 	"sync"
 	"sync/atomic"
 	"time"
@@ -133,6 +134,25 @@ type gatedReader struct {
 	// cancel-stall: after cancelling, the stream delivers nothing more and the Read does not return until 'stall' is closed
 	stall     chan struct{}
 	cancelled chan struct{}
+	// slowClose: the stream is an io.Closer whose Close does not return before the harness has seen Done() and every Open
+	// return (it gives up after 20 s)
+	slowClose *slowCloser
+}
+
+type slowCloser struct {
+	release  chan struct{}
+	timedOut atomic.Bool
+}
+
+type closingReader struct{ *gatedReader }
+
+func (c closingReader) Close() error {
+	select {
+	case <-c.slowClose.release:
+	case <-time.After(20 * time.Second):
+		c.slowClose.timedOut.Store(true)
+	}
+	return nil
 }
 
 func (g *gatedReader) Read(p []byte) (int, error) {
@@ -211,6 +231,9 @@ type faultDest struct {
 	writeGate  chan struct{} // if set, Write blocks until it is closed (a slow destination), at most a few seconds
 	// failAllWrites: every Write fails (a destination that is full), after the gate
 	failAllWrites bool
+	// commitOnClose: what is written becomes part of the file when the handle is closed (a write-behind / object store),
+	// and Close takes a moment
+	commitOnClose bool
 }
 
 func (d *faultDest) call(site string) error {
@@ -255,8 +278,9 @@ func (d *faultDest) OpenFile(name string, flag int, perm hackpadfs.FileMode) (ha
 }
 
 type faultDestFile struct {
-	f hackpadfs.File
-	d *faultDest
+	f       hackpadfs.File
+	d       *faultDest
+	pending []byte
 }
 
 func (f *faultDestFile) Read(p []byte) (int, error)        { return f.f.Read(p) }
@@ -279,12 +303,23 @@ func (f *faultDestFile) Write(p []byte) (int, error) {
 		f.d.mu.Unlock()
 		return 0, errFill
 	}
+	if f.d.commitOnClose {
+		f.pending = append(f.pending, p...)
+		return len(p), nil
+	}
 	return hackpadfs.WriteFile(f.f, p)
 }
 func (f *faultDestFile) Close() error {
 	if err := f.d.call("Close"); err != nil {
 		_ = f.f.Close()
 		return err
+	}
+	if f.d.commitOnClose {
+		time.Sleep(2 * time.Millisecond) // whoever was told "written" too early gets the chance to look now
+		if _, err := hackpadfs.WriteFile(f.f, f.pending); err != nil {
+			_ = f.f.Close()
+			return err
+		}
 	}
 	return f.f.Close()
 }
@@ -357,6 +392,9 @@ func c13cases(env *core.Env) []c13case {
 	for r := 0; r < env.Pick(2, 6); r++ {
 		cs = append(cs, c13case{Part: "poolfail", Rep: r})
 	}
+	for r := 0; r < 3; r++ {
+		cs = append(cs, c13case{Part: "duplicate", Rep: r})
+	}
 	return cs
 }
 
@@ -395,7 +433,18 @@ func c13drive(a *c13archive, g *gatedReader, dest *faultDest, ctx context.Contex
 	if dest != nil {
 		opt.UnarchiveFS = dest
 	}
-	t, err := hptar.NewReaderFS(ctx, g, opt)
+	var stream io.Reader = g
+	if g.slowClose != nil {
+		stream = closingReader{g}
+		defer func() {
+			select {
+			case <-g.slowClose.release:
+			default:
+				close(g.slowClose.release)
+			}
+		}()
+	}
+	t, err := hptar.NewReaderFS(ctx, stream, opt)
 	if err != nil {
 		res.Violate(sigBase+"|constructor", "NewReaderFS failed: "+err.Error(), wit)
 		return
@@ -499,6 +548,14 @@ func c13drive(a *c13archive, g *gatedReader, dest *faultDest, ctx context.Contex
 		}
 		res.Violate(sigBase+"|blocked", fmt.Sprintf("60 s after the stream ended %d Open calls have not returned (Done closed: %v)", pending, doneClosed), wit)
 		return
+	}
+	if g.slowClose != nil {
+		res.Count("streams_with_a_pending_close", 1)
+		if g.slowClose.timedOut.Load() {
+			res.Violate(sigBase+"|released-only-after-source-close", "the stream had ended, but Done() and the pending Opens only returned after the source's Close had returned (Close was kept pending until they would return; it gave up after 20 s)", wit)
+			return
+		}
+		close(g.slowClose.release)
 	}
 	if g.afterCut != nil {
 		select {
@@ -630,8 +687,18 @@ func c13run(env *core.Env, idx int) core.CaseResult {
 			sig = "C13|race|undisturbed,empty-reads"
 			res.Count("streams_with_empty_reads", 1)
 		}
-		c13drive(a, g, nil, context.Background(), 1+r.Intn(8), r, &res, sig, cs)
+		var dest *faultDest
+		if cs.Rep%3 == 2 {
+			// a destination whose files are complete only once Close has returned, and a source whose Close is slow
+			dest = &faultDest{failAt: -1, commitOnClose: true}
+			dest.inner, _ = mem.NewFS()
+			g.slowClose = &slowCloser{release: make(chan struct{})}
+			sig = "C13|race|commit-on-close-destination,slow-closing-source"
+		}
+		c13drive(a, g, dest, context.Background(), 1+r.Intn(8), r, &res, sig, cs)
 		res.Nontrivial = true
+	case "duplicate":
+		c13duplicate(cs, &res)
 	case "destfault":
 		// count the destination calls of a clean unpacking, then fail each in turn
 		clean := &faultDest{failAt: -1}
@@ -670,6 +737,57 @@ func c13run(env *core.Env, idx int) core.CaseResult {
 		res.Sample = cs
 	}
 	return res
+}
+
+// c13duplicate: an archive that was appended to (tar -r) holds a member twice; both versions are beyond the small
+// buffer, so they are written one after the other by the reader itself. After Done() the name yields exactly the later
+// version, in particular when that one is the shorter. (Opens while the stream is running are not judged here:
+// which version "the entry" is at that moment is not defined.)
+func c13duplicate(cs c13case, res *core.CaseResult) {
+	sizes := [][2]int{{200 << 10, 152 << 10}, {152 << 10, 300 << 10}, {5 << 20, 160 << 10}}[cs.Rep%3]
+	var buf bytes.Buffer
+	w := tar.NewWriter(&buf)
+	var last []byte
+	names := [][2]string{{"dup", "dup"}, {"dup", "./dup"}, {"d/dup", "d//dup"}}[cs.Rep%3]
+	for i, size := range sizes {
+		body := make([]byte, size)
+		for j := range body {
+			body[j] = byte('a' + (i*7+j)%23)
+		}
+		_ = w.WriteHeader(&tar.Header{Name: names[i], Mode: 0o644, Typeflag: tar.TypeReg, Size: int64(size), Format: tar.FormatUSTAR})
+		_, _ = w.Write(body)
+		if i == 0 {
+			_ = w.WriteHeader(&tar.Header{Name: "between", Mode: 0o644, Typeflag: tar.TypeReg, Size: 3, Format: tar.FormatUSTAR})
+			_, _ = w.Write([]byte("mid"))
+		}
+		last = body
+	}
+	_ = w.Close()
+	t, err := hptar.NewReaderFS(context.Background(), bytes.NewReader(buf.Bytes()), hptar.ReaderFSOptions{})
+	if err != nil {
+		res.Violate("C13|duplicate|constructor", err.Error(), cs)
+		return
+	}
+	select {
+	case <-t.Done():
+	case <-time.After(60 * time.Second):
+		res.Violate("C13|duplicate|blocked", "Done() did not return within 60 s of the end of the stream", cs)
+		return
+	}
+	res.Nontrivial = true
+	res.Count("duplicate_member_archives", 1)
+	name := strings.TrimPrefix(names[0], "./")
+	got, rerr := hackpadfs.ReadFile(t, name)
+	if rerr != nil {
+		if t.UnarchiveErr() != nil {
+			return // refusing such an archive is an answer, too
+		}
+		res.Violate("C13|duplicate|after|open-failed", fmt.Sprintf("unpacking reported no error, but Open(%q) fails: %v", name, rerr), cs)
+		return
+	}
+	if !bytes.Equal(got, last) {
+		res.Violate("C13|duplicate|after|partial-different", fmt.Sprintf("the archive holds %q twice (%d bytes, later %d bytes); after Done() the name yields %d bytes that are not the later version", name, sizes[0], sizes[1], len(got)), cs)
+	}
 }
 
 // c13where names the position of a cut relative to the entries.
